@@ -734,3 +734,143 @@ Qed.
 
 Theorem reachable_inv k l : inv (run (init k) l).
 Proof. apply inv_run, inv_init. Qed.
+
+(** ** consequences of the invariant *)
+
+(** a caller waiting for its response either has the response in the reader's
+    hand, or still has its entry in the pending map of a response loop that
+    has neither drained nor been told to stop *)
+Lemma no_hang_inv s c id :
+  inv s -> stof s c = CWait id ->
+  s_rd s = RHold (Some c) \/ (In (id, c) (s_pending s) /\ dead s = false).
+Proof.
+  intros I H. destruct (dead s) eqn:D.
+  - left. now apply (i_live s I c id).
+  - assert (Hn : needs_entry (stof s c)) by (rewrite H; exact Logic.I).
+    destruct (i_open s I c Hn) as [H1|H1]; [now left|]. rewrite H in H1. right. now split.
+Qed.
+
+Lemma dead_no_waiter s c id : inv s -> s_rd s = RDead \/ s_rd s = RDrained -> stof s c <> CWait id.
+Proof.
+  intros I Hr H. assert (D : dead s = true) by (unfold dead; destruct Hr as [R|R]; now rewrite R).
+  pose proof (i_live s I c id H D) as H1. destruct Hr as [R|R]; congruence.
+Qed.
+
+(** after the reader made writes fail, the socket is marked shut *)
+Lemma shut_after_fail s : inv s -> past_fail (s_rd s) = true -> s_shut s = true.
+Proof. intros I H. apply (i_shut s I). now left. Qed.
+
+Lemma stof_fail_write s c id g : stof (fail_write s c id g) c = CDone id RConn.
+Proof.
+  rewrite fail_write_eq. unfold after_fail, own_fail.
+  cbn [set_pc s_kind]. destruct (s_kind s); [| destruct g |]; unfold stof; cbn [set_shut set_gstop drain_all set_pc s_cs s_pending].
+  - apply cget_cset_same.
+  - rewrite drain_get. rewrite cget_cset_same.
+    destruct (has_caller (pdel (s_pending s) id) c); reflexivity.
+  - apply cget_cset_same.
+  - apply cget_cset_same.
+Qed.
+
+(** a call whose write comes after the socket was shut returns an error at
+    that write *)
+Lemma write_after_shut s c id mb :
+  s_shut s = true -> lock_free s = true -> stof s c = CReg id mb ->
+  stof (do_step s (Write c)) c = CDone id RConn.
+Proof. intros Sh L E. cbn [do_step]. rewrite E, L, Sh. apply stof_fail_write. Qed.
+
+Lemma later_call_errors s c :
+  s_shut s = true -> lock_free s = true -> stof s c = CNone ->
+  stof (run s [Register c; Write c]) c = CDone (s_next s) RConn.
+Proof.
+  intros Sh L E. cbn [run fold_left]. cbn [do_step]. rewrite E.
+  apply (write_after_shut _ c (s_next s) None); unfold stof, lock_free; cbn [set_next set_pc s_shut s_lock s_cs]; try assumption.
+  apply cget_cset_same.
+Qed.
+
+(** a stalled writer is released by the shutdown *)
+Lemma stalled_writer_released s c :
+  inv s -> s_shut s = true -> s_lock s = Some c ->
+  lock_free (do_step s (WStallEnd c)) = true /\ exists id, stof (do_step s (WStallEnd c)) c = CDone id RConn.
+Proof.
+  intros I Sh L. destruct (proj1 (i_lock s I c) L) as [id [mb E]].
+  cbn [do_step]. rewrite E, Sh. split; [|exists id; apply stof_fail_write].
+  rewrite fail_write_eq. unfold after_fail, own_fail, lock_free. cbn [set_pc set_lock s_kind].
+  destruct (s_kind s); reflexivity.
+Qed.
+
+(** a returned call has left nothing in the pending map *)
+Lemma no_residue_inv s c id r : inv s -> stof s c = CDone id r -> pfind (s_pending s) id = None.
+Proof.
+  intros I H. apply pfind_none. intros c' Hin.
+  destruct (i_entry s I id c' Hin) as [H1 H2].
+  assert (Hc : stof s c <> CNone) by (rewrite H; congruence).
+  assert (c = c') by (apply (i_uniq s I c c' Hc); rewrite H, H1; reflexivity). subst c'.
+  rewrite H in H2. exact H2.
+Qed.
+
+(** a response whose id is not pending changes nothing *)
+Lemma unknown_response_noop s id :
+  s_rd s = RAlive -> pfind (s_pending s) id = None -> run s [RTake id; RDeliver] = s.
+Proof.
+  intros R F. cbn [run fold_left do_step]. rewrite R, F. cbn [set_rd s_rd].
+  destruct s; cbn in *; subst; reflexivity.
+Qed.
+
+Lemma late_response_noop s c id r :
+  inv s -> s_rd s = RAlive -> stof s c = CDone id r -> run s [RTake id; RDeliver] = s.
+Proof. intros I R H. apply unknown_response_noop; [assumption|]. now apply (no_residue_inv s c id r). Qed.
+
+(** a response is handed to the caller that registered its id *)
+Lemma response_goes_to_owner s id c :
+  inv s -> pfind (s_pending s) id = Some c -> id_of (stof s c) = id.
+Proof. intros I F. apply pfind_in in F. now apply (i_entry s I id c). Qed.
+
+(** the subscriber's stream is ended before writes are made to fail and before
+    any waiter is failed *)
+Lemma subscriber_ended s : inv s -> s_kind s = KWs -> before_subend (s_rd s) = false -> s_sub s <> SSub.
+Proof. intros I K B. now apply sub_not_live. Qed.
+
+Lemma subend_ends s : s_rd s = RErr -> s_kind s = KWs -> s_sub s = SSub -> s_sub (do_step s SubEnd) = SEnded.
+Proof. intros R K U. cbn [do_step]. rewrite R, K, U. reflexivity. Qed.
+
+(** ** the failing response loop always gets to the end: the steps it needs
+    are its own and the end of a stalled write, never the peer's *)
+Definition fail_seq (s : st) : list step :=
+  [SubEnd; OwnShut] ++ (match s_lock s with Some c => [WStallEnd c] | None => [] end) ++ [LockShut; Drain; LockShut].
+
+Lemma rd_after_fail s1 g : s_rd (after_fail s1 g) = s_rd s1.
+Proof. unfold after_fail. destruct (s_kind s1); [reflexivity | destruct g; reflexivity | reflexivity]. Qed.
+Lemma kind_after_fail s1 g : s_kind (after_fail s1 g) = s_kind s1.
+Proof. unfold after_fail. destruct (s_kind s1) eqn:K; [|destruct g|]; cbn; congruence. Qed.
+Lemma lock_after_fail s1 g : s_lock (after_fail s1 g) = s_lock s1.
+Proof. unfold after_fail. destruct (s_kind s1); [reflexivity | destruct g; reflexivity | reflexivity]. Qed.
+
+Lemma finish_from_ownshut s :
+  s_rd s = ROwnShut -> s_lock s = None -> s_rd (run s [LockShut; Drain; LockShut]) = RDead.
+Proof.
+  intros R L. cbn [run fold_left do_step]. rewrite R. unfold lock_free. rewrite L.
+  destruct (s_kind s) eqn:K; cbn [set_rd s_rd s_kind]; rewrite ?R, ?K; cbn [set_rd drain_all set_pc s_rd s_kind s_lock];
+    rewrite ?K, ?L; reflexivity.
+Qed.
+
+Lemma reader_finishes s : inv s -> s_rd s = RErr -> s_rd (run s (fail_seq s)) = RDead.
+Proof.
+  intros I R. unfold fail_seq.
+  set (s2 := run s [SubEnd; OwnShut]).
+  assert (R2 : s_rd s2 = ROwnShut).
+  { unfold s2. cbn [run fold_left do_step]. rewrite R. cbn [set_rd s_rd]. reflexivity. }
+  assert (L2 : s_lock s2 = s_lock s).
+  { unfold s2. cbn [run fold_left do_step]. rewrite R. cbn [set_rd s_rd].
+    destruct (s_kind s); [|destruct (s_sub s)|destruct (s_sub s)]; reflexivity. }
+  assert (Sh2 : s_shut s2 = true).
+  { unfold s2. cbn [run fold_left do_step]. rewrite R. cbn [set_rd s_rd]. reflexivity. }
+  assert (I2 : inv s2) by (apply inv_run; exact I).
+  unfold run. rewrite !fold_left_app. fold (run s [SubEnd; OwnShut]). fold s2.
+  destruct (s_lock s) as [c|] eqn:L.
+  - cbn [fold_left]. fold (run (do_step s2 (WStallEnd c)) [LockShut; Drain; LockShut]).
+    destruct (proj1 (i_lock s2 I2 c) L2) as [id [mb E]].
+    apply finish_from_ownshut.
+    + cbn [do_step]. rewrite E, Sh2. rewrite fail_write_eq, rd_after_fail. exact R2.
+    + cbn [do_step]. rewrite E, Sh2. rewrite fail_write_eq, lock_after_fail. reflexivity.
+  - cbn [fold_left]. fold (run s2 [LockShut; Drain; LockShut]). now apply finish_from_ownshut.
+Qed.
